@@ -3,6 +3,7 @@ package main
 import (
 	"bytes"
 	"context"
+	"errors"
 	"fmt"
 	"io"
 	"net/http"
@@ -15,6 +16,7 @@ import (
 	"time"
 
 	webdav "github.com/emersion/go-webdav"
+	"github.com/emersion/go-webdav/internal"
 )
 
 // C18: streamed upload fault matrix and concurrent use (validation of the LTS and of statelessness)
@@ -29,6 +31,8 @@ func uploadScenario(fault string, size int, chunk int) string {
 			w.WriteHeader(http.StatusCreated)
 		case "early":
 			w.WriteHeader(http.StatusPreconditionFailed)
+		case "early2xx":
+			w.WriteHeader(http.StatusCreated)
 		case "partial":
 			io.CopyN(io.Discard, r.Body, int64(size/2))
 			w.WriteHeader(http.StatusInsufficientStorage)
@@ -88,7 +92,13 @@ func uploadScenario(fault string, size int, chunk int) string {
 			remaining -= n
 		}
 		if err := w.Close(); err != nil {
-			result <- "closed err"
+			// the failure Close reports must be the server's answer when there was one
+			var he *internal.HTTPError
+			if errors.As(err, &he) {
+				result <- fmt.Sprintf("closed http-%d", he.Code)
+			} else {
+				result <- "closed other"
+			}
 		} else {
 			result <- "closed nil"
 		}
@@ -121,14 +131,14 @@ func uploadScenario(fault string, size int, chunk int) string {
 }
 
 func famUpload(o *Out, r *RNG, thorough bool) {
-	sizes := []int{0, 4096, 5 << 20}
-	for _, fault := range []string{"ok", "early", "partial", "drop", "stall"} {
+	sizes := []int{0, 4096, 5 << 20, 16 << 20}
+	for _, fault := range []string{"ok", "early", "early2xx", "partial", "drop", "stall"} {
 		for _, size := range sizes {
 			chunks := []int{64 << 10}
 			if size == 4096 {
 				chunks = []int{4096, 1, 1000}
 			}
-			if size == 5<<20 && thorough {
+			if size >= 5<<20 && thorough {
 				chunks = []int{64 << 10, 5 << 20, 4097}
 			}
 			for _, ch := range chunks {
